@@ -214,6 +214,26 @@ type Frame struct {
 	// In: the frame is evaluating the body of this call's callee; access
 	// paths are written in the caller's terms (PathOfIn).
 	In *ssa.CallCommon
+	// AssumePath fixes the truth of conditions named by access path — e.g.
+	// "(recv.f.Since != const:nil)": true — wherever they are tested (in the
+	// function itself or in a predicate helper it delegates to). Paths that
+	// contradict an assumption are infeasible.
+	AssumePath map[string]bool
+}
+
+// AssumePresent returns f restricted to executions in which the pointer /
+// slice / map with access path ap is non-nil.
+func (f Frame) AssumePresent(ap string) Frame {
+	m := map[string]bool{}
+	for k, v := range f.AssumePath {
+		m[k] = v
+	}
+	m["("+ap+" != const:nil)"] = true
+	m["("+ap+" == const:nil)"] = false
+	m["(const:nil != "+ap+")"] = true
+	m["(const:nil == "+ap+")"] = false
+	f.AssumePath = m
+	return f
 }
 
 func (f Frame) pathOf(v ssa.Value) string {
@@ -483,6 +503,14 @@ func (f Frame) evalBool(v ssa.Value, p Path, depth int) (t, fs Set, known bool) 
 			}
 		}
 	case *ssa.BinOp:
+		if len(f.AssumePath) > 0 {
+			if b, ok := f.AssumePath[f.pathOf(x)]; ok {
+				if b {
+					return full, Empty(), true
+				}
+				return Empty(), full, true
+			}
+		}
 		if a, ok := f.Atom(x, true); ok {
 			return full.Intersect(a), full.Intersect(a.Complement()), true
 		}
@@ -512,7 +540,7 @@ func IsPurePredicate(g *ssa.Function) bool {
 		return v == 1
 	}
 	purePred[g] = 2
-	if g == nil || len(g.Blocks) == 0 || g.Pkg == nil || !strings.HasPrefix(g.Pkg.Pkg.Path(), ModulePrefix) {
+	if !InModuleFn(g) {
 		return false
 	}
 	res := g.Signature.Results()
